@@ -91,7 +91,8 @@ def rand_path_shape(rng):
     if r < 0.86:
         # as git writes a path with non-ASCII bytes, a tab or a quote under core.quotePath: quoted, with C escapes.
         # delta removes the quotes and shows the escapes as they are
-        return rng.choice(['\\303\\274n\\303\\257/c\\303\\266d\\303\\251.rs', 'tab\\there.txt', 'q\\"uote.py', 'back\\\\slash.c']), 'git-quoted'
+        return rng.choice(['\\303\\274n\\303\\257/c\\303\\266d\\303\\251.rs', 'tab\\there.txt', 'q\\"uote.py', 'back\\\\slash.c',
+                           'sp ac\\303\\251.txt', 'my dir/na\\303\\257ve file.md']), 'git-quoted'
     if r < 0.9:
         return rng.choice(['Makefile', 'LICENSE', '.gitignore', '.hidden/x', 'no_ext']), 'no-ext'
     return rng.choice(['weird-@@-name.rs', 'plus+minus-.txt', 'colon:name.c', "quote'name.py"]), 'punct'
@@ -148,7 +149,8 @@ def tab_if_space(p):
 def gq(prefix, p, tab=True):
     """prefix + path as git writes it on diff / --- / +++ / rename lines (quoted when it holds escapes)."""
     if '\\' in p:
-        return '"%s%s"' % (prefix, p)
+        # (git also appends its tab to a quoted name that contains a space, after the closing quote)
+        return '"%s%s"' % (prefix, p) + ('\t' if tab and ' ' in p else '')
     return prefix + (tab_if_space(p) if tab else p)
 
 
@@ -196,6 +198,8 @@ def section_lines(s, fmt):
             w = 'rename' if k == 'binary_renamed' else 'copy'
             L += ['similarity index 90%', w + ' from ' + gq('', a, False), w + ' to ' + gq('', b, False), idx + ' 100644',
                   'Binary files %s and %s differ' % (gq(pa, a, False), gq(pb, b, False))]
+        elif k == 'binary_mode_changed':
+            L += ['old mode 100644', 'new mode 100755', idx, 'Binary files %s and %s differ' % (gq(pa, a, False), gq(pb, b, False))]
         elif k == 'binary_added':
             L += ['new file mode 100644', 'index 0000000..2222222', 'Binary files /dev/null and %s differ' % gq(pb, b, False)]
     for h in s.hunks:
@@ -234,6 +238,8 @@ def expected_header(s, fmt, labels, arrow):
         return '%s%s %s %s' % (lab(labels['copied']), s.old, arrow, s.new)
     if k == 'binary_noindex':
         return 'Binary files %s%s and %s%s differ' % (s.pa, s.old, s.pb, s.new)      # passed through, it names both files
+    if k == 'binary_mode_changed':
+        return lab(labels['modified']) + s.new + ' (binary file) (mode +x)'
     if k in ('binary', 'binary_cc'):
         return lab(labels['modified']) + s.new + ' (binary file)'
     if k == 'binary_added':
@@ -247,7 +253,7 @@ def run_item(item):
         return run_combined(seed)
     rng = engine.item_rng(seed)
     fmt = 'plain' if rng.random() < 0.1 else 'git'
-    kinds_all = gen.SECTION_KINDS + ['submodule_log', 'binary_noindex', 'binary_cc', 'binary_renamed', 'binary_copied']
+    kinds_all = gen.SECTION_KINDS + ['submodule_log', 'binary_noindex', 'binary_cc', 'binary_renamed', 'binary_copied', 'binary_mode_changed']
     n = rng.choice([1, 2, 2, 3, 4])
     pa, pb = rng.choice(PREFIX_PAIRS)
     secs = []
